@@ -1,0 +1,18 @@
+# Verification hooks (add-only instrumentation). Inactive unless the environment variable
+# PANDAPIPES_VERIF is set to "1" when pandapipes is imported; then events are appended to an
+# in-memory list that a test harness drains. No effect on results.
+import os
+
+ENABLED = os.environ.get("PANDAPIPES_VERIF") == "1"
+EVENTS = []
+
+
+def emit(event, **fields):
+    if ENABLED:
+        EVENTS.append((event, fields))
+
+
+def drain():
+    out = list(EVENTS)
+    del EVENTS[:]
+    return out
